@@ -160,6 +160,17 @@ theorem utxoEntry_size_eq_length (C : Curve) (e : Txo) :
 theorem utxoEntry_roundtrip (C : Curve) (hC : C.YRecovery) (e : Txo) (hw : e.WF) (tail : List UInt8) :
     deserializeUtxoEntry C (serializeUtxoEntry C e ++ tail) = .ok e.rt := Lemmas.utxo_rt C hC e hw tail
 
+/-- spent txout bytes are `<VLQ header code>[<reserved 0x00> iff height > 0]<compressed txout>`. -/
+theorem stxo_format (C : Curve) (t : Txo) :
+    putSpentTxOut C t = vlq (headerCode (u64OfInt t.height) t.coinbase) ++ (if t.height > 0 then [0] else []) ++
+      putCompressedTxOut C t.amount t.script := by
+  unfold putSpentTxOut headerCodeOf; rw [Lemmas.putVLQ_eq_spec, Lemmas.vlq_zero]
+
+/-- the journal entry is the concatenation of the stxos, last spent first; nothing for an empty list. -/
+theorem journal_format (C : Curve) (l : List Txo) :
+    serializeSpendJournalEntry C l = (l.reverse.map (putSpentTxOut C)).flatten ∧
+    serializeSpendJournalEntry C [] = [] := ⟨rfl, rfl⟩
+
 theorem stxo_size_eq_length (C : Curve) (t : Txo) :
     (putSpentTxOut C t).length = spentTxOutSerializeSize C t := Lemmas.stxo_size C t
 
@@ -271,6 +282,9 @@ theorem deserializeBlockRow_no_panic (ser : List UInt8) : deserializeBlockRow se
 /-- The legacy (version 0 format) utxo entry decoder of upgrade.go. -/
 theorem deserializeUtxoEntryV0_no_panic (C : Curve) (ser : List UInt8) (hlen : ser.length < 2 ^ 63) :
     deserializeUtxoEntryV0 C ser ≠ .panic := Lemmas.utxoV0_no_panic C ser hlen
+
+/-- The legacy v1 block index row reader of the block index migration (after the fix, F-C15-c). -/
+theorem readV1BlockRow_no_panic (row : List UInt8) : readV1BlockRow row ≠ .panic := Lemmas.v1row_no_panic row
 
 /-- All decoders at once. -/
 theorem decoders_no_panic (C : Curve) (ser : List UInt8) (shape : List Nat) (hlen : ser.length < 2 ^ 32) :
